@@ -3,6 +3,10 @@ import re
 from lib.rules import arg_desc, who_calls, field_writes, writers_of_field, arg_path, user_local_of, G, require_guards
 from lib.tables import enumerate_paths, describe
 
+from lib.rules import owned_by  # noqa: E402
+
+from lib.tables import strip_suffix  # noqa: E402
+
 META = dict(
     level='other',
     explanation=(
@@ -28,7 +32,8 @@ def rule_writers(ctx):
         if f != 'deltas':
             continue
         n += 1
-        ctx.check(b.nid.endswith('PayloadHistory::push_delta'), 'K3', 'deltas-writer<-%s' % b.nid, 'deltas mutated in push_delta',
+        ok, who = owned_by(ctx, b.nid, ['PayloadHistory::push_delta'])
+        ctx.check(ok, 'K3', 'deltas-writer<-%s' % who, 'deltas mutated in push_delta',
                   'PayloadHistory.deltas is mutated (%s) in %s' % (how, b.nid), loc=site.loc())
     ctx.floor('K3', 'mutations of deltas', n, 2)
     u = ctx.body('payload::history::SharedHistory::update')
@@ -80,6 +85,57 @@ def rule_serial_step(ctx):
                   'PayloadDelta::merge numbers the merged delta `%s` instead of new.serial' % d, loc=l.loc())
 
 
+LEN = 'call:VecDeque::len(self.deltas)'
+
+
+def _split_top(s):
+    out, depth, cur = [], 0, ''
+    for ch in s:
+        if ch == ',' and depth == 0:
+            out.append(cur)
+            cur = ''
+            continue
+        depth += ch == '('
+        depth -= ch == ')'
+        cur += ch
+    out.append(cur)
+    return out
+
+
+def _len_cmp_operand(base):
+    """`cmp(len(deltas), X)` -> (True, X); `cmp(X, len(deltas))` -> (False, X); else None"""
+    if not (base.startswith('cmp(') and base.endswith(')')):
+        return None
+    ops = _split_top(base[4:-1])
+    if len(ops) != 2:
+        return None
+    if ops[0] == LEN:
+        return True, ops[1]
+    if ops[1] == LEN:
+        return False, ops[0]
+    return None
+
+
+def _eval_bound(d, keep):
+    """value of an expression over `self.keep` and constants, or None"""
+    if d == 'self.keep':
+        return keep
+    m = re.match(r'^const\((\d+)\)$', d)
+    if m:
+        return int(m.group(1))
+    m = re.match(r'^call:(?:\w+::)*(max|min)\((.*)\)$', d) or re.match(r'^call:.*Ord>::(max|min)\((.*)\)$', d)
+    if m:
+        ops = [_eval_bound(x, keep) for x in _split_top(m.group(2))]
+        if len(ops) == 2 and None not in ops:
+            return max(ops) if m.group(1) == 'max' else min(ops)
+    m = re.match(r'^(Add|Sub)\((.*)\)$', d) or re.match(r'^call:usize::(saturating_add|saturating_sub|wrapping_add)\((.*)\)$', d)
+    if m:
+        ops = [_eval_bound(x, keep) for x in _split_top(m.group(2))]
+        if len(ops) == 2 and None not in ops:
+            return ops[0] + ops[1] if 'dd' in m.group(1) else max(ops[0] - ops[1], 0)
+    return None
+
+
 def rule_abstract(ctx):
     b = ctx.body('payload::history::PayloadHistory::push_delta')
     paths = enumerate_paths(b, ctx.facts, max_visits=3)
@@ -90,20 +146,19 @@ def rule_abstract(ctx):
             continue
         conds = []
         for v, labs, _bb in p.conds:
-            base = v.split('#')[0].split('~')[0]
-            if base.startswith('cmp(') and 'VecDeque::len(self.deltas)' in base and 'self.keep' in base:
-                first_len = base.index('VecDeque::len') < base.index('self.keep')
-                rels = set(labs) if first_len else set({'Less': 'Greater', 'Greater': 'Less', 'Equal': 'Equal'}[x] for x in labs)
+            base = strip_suffix(v)
+            other = _len_cmp_operand(base)
+            if other is not None and other[1] == 'self.keep':
+                rels = set(labs) if other[0] else set({'Less': 'Greater', 'Greater': 'Less', 'Equal': 'Equal'}[x] for x in labs)
                 conds.append(('lenkeep', rels))
+            elif other is not None and _eval_bound(other[1], 0) is not None:
+                # len compared with an expression over keep and constants (`max(keep, 1)`, `keep + 1`, a constant)
+                rels = set(labs) if other[0] else set({'Less': 'Greater', 'Greater': 'Less', 'Equal': 'Equal'}[x] for x in labs)
+                conds.append(('lenexpr', (other[1], rels)))
             elif base.startswith('call:VecDeque::is_empty(self.deltas)') or base.startswith('Not(call:VecDeque::is_empty(self.deltas)'):
                 neg = base.startswith('Not(')
                 want_empty = ('true' in labs) != neg
                 conds.append(('empty', want_empty))
-            elif base.startswith('cmp(') and 'VecDeque::len(self.deltas)' in base and re.search(r'const\((\d+)\)', base):
-                cst = int(re.search(r'const\((\d+)\)', base).group(1))
-                first_len = base.index('VecDeque::len') < base.index('const(')
-                rels = set(labs) if first_len else set({'Less': 'Greater', 'Greater': 'Less', 'Equal': 'Equal'}[x] for x in labs)
-                conds.append(('lenconst', (cst, rels)))
             elif base.startswith('cmp(') or base.startswith('call:') or base.startswith('Not('):
                 if 'pop_back' in base or 'pop_front' in base:
                     continue
@@ -119,7 +174,7 @@ def rule_abstract(ctx):
         cq, eq = {}, {}
         ci = 0
         for v, labs, bb in p.conds:
-            base = v.split('#')[0].split('~')[0]
+            base = strip_suffix(v)
             if 'pop_back' in base or 'pop_front' in base:
                 continue
             if ci < len(conds):
@@ -156,7 +211,7 @@ def rule_abstract(ctx):
                         elif kind == 'empty':
                             holds = (sim == 0) == c
                         else:
-                            holds = rel(sim, c[0]) in c[1]
+                            holds = rel(sim, _eval_bound(c[0], keep)) in c[1]
                         if not holds:
                             ok = False
                             break
